@@ -20,46 +20,46 @@ variable {R : Type} [ResAlg R]
 
 /-- **stream shape**: the messages of a create call are either the single failure message with
 no record and no container created, or exactly one message per planned instance. -/
-theorem create_stream_shape (a : CreateArgs R) (flt : Option Addr) (s : State R) :
-    let ms' := (run (create a) flt s).2
+theorem create_stream_shape (a : CreateArgs R) (flt : Option Addr) (s : State R) (cancel : Option (Addr × Bool)) :
+    let ms' := (run (create a) flt s cancel).2
     (ms'.msgs = [⟨"", 0, false, none⟩] ∧ ms'.st.wls = s.wls ∧ ms'.st.cts = s.cts) ∨
       ms'.msgs.length = planned a.plan :=
-  (create_stream a flt { st := s } rfl).1
+  (create_stream a flt { st := s, cancel := cancel } rfl).1
 
 /-- **successes are truthful**: every success message names a workload that is recorded on the
 reported node with the reported resources and whose container exists and is running, in the state
 the call ends in. -/
-theorem success_truthful (a : CreateArgs R) (flt : Option Addr) (s : State R) :
-    let ms' := (run (create a) flt s).2
+theorem success_truthful (a : CreateArgs R) (flt : Option Addr) (s : State R) (cancel : Option (Addr × Bool)) :
+    let ms' := (run (create a) flt s cancel).2
     ∀ m ∈ ms'.msgs, m.ok = true →
       (∃ w ∈ ms'.st.wls, w.id = m.id ∧ w.node = m.node ∧ m.res = some w.res) ∧
       (⟨m.id, m.node, true⟩ : Ct) ∈ ms'.st.cts := by
   intro ms' m hm hok
-  have := (create_stream a flt { st := s } rfl).2.1 m hm hok
+  have := (create_stream a flt { st := s, cancel := cancel } rfl).2.1 m hm hok
   exact ⟨this.2.1, this.2.2⟩
 
 /-- **distinct successes name distinct workloads** -/
-theorem success_ids_distinct (a : CreateArgs R) (flt : Option Addr) (s : State R) :
-    (okIds (run (create a) flt s).2.msgs).Nodup :=
-  (create_stream a flt { st := s } rfl).2.2
+theorem success_ids_distinct (a : CreateArgs R) (flt : Option Addr) (s : State R) (cancel : Option (Addr × Bool)) :
+    (okIds (run (create a) flt s cancel).2.msgs).Nodup :=
+  (create_stream a flt { st := s, cancel := cancel } rfl).2.2
 
 /-- **the whole call is clean**: after the call every record is one that was there before or one a
 success message reports, no earlier record is lost, every container is an earlier one or belongs to
 a reported success, capacity and nodes are untouched (so a failed instance left no record and no
 container); usage is again the sum of the records (`failures_leave_no_usage`). -/
-theorem create_whole_clean (a : CreateArgs R) (flt : Option Addr) (s : State R)
-    (hids : ∀ w ∈ s.wls, w.id < s.next) : Clean s (run (create a) flt s).2 :=
-  create_clean a flt { st := s } rfl hids
+theorem create_whole_clean (a : CreateArgs R) (flt : Option Addr) (s : State R) (cancel : Option (Addr × Bool))
+    (hids : ∀ w ∈ s.wls, w.id < s.next) : Clean s (run (create a) flt s cancel).2 :=
+  create_clean a flt { st := s, cancel := cancel } rfl hids
 
 /-- **the reported resources are the recorded ones, and one instance = one record**: a successful
 `doDeployOneWorkload` of resources `r` on node `n` adds exactly the record `⟨fresh id, n, r⟩`
 and one running container; it never touches usage, capacity or nodes. -/
-theorem instance_success_exact (n : String) (r : R) (flt : Option Addr) (s : State R) (id : Nat) :
-    (run (deployOne n r true) flt s).1 = .ok id →
-      id = s.next ∧ (run (deployOne n r true) flt s).2.st.wls = ⟨s.next, n, r⟩ :: s.wls ∧
-      (run (deployOne n r true) flt s).2.st.usage = s.usage := by
+theorem instance_success_exact (n : String) (r : R) (flt : Option Addr) (s : State R) (cancel : Option (Addr × Bool)) (id : Nat) :
+    (run (deployOne n r true) flt s cancel).1 = .ok id →
+      id = s.next ∧ (run (deployOne n r true) flt s cancel).2.st.wls = ⟨s.next, n, r⟩ :: s.wls ∧
+      (run (deployOne n r true) flt s cancel).2.st.usage = s.usage := by
   intro h
-  have := deployOne_spec n r true flt { st := s }
+  have := deployOne_spec n r true flt { st := s, cancel := cancel }
   unfold wp at this
   unfold run at h ⊢
   rcases this with ⟨ho, hp⟩ | ⟨ho, _⟩
@@ -74,14 +74,14 @@ theorem instance_success_exact (n : String) (r : R) (flt : Option Addr) (s : Sta
 /-- **failures are clean**: a failed `doDeployOneWorkload` (whatever step the fault hit: engine
 create, WAL, metadata, start, inspect) leaves no workload record and no container behind and
 never touched usage. (With ids below the fresh-id counter — part of `Inv`.) -/
-theorem instance_failure_clean (n : String) (r : R) (flt : Option Addr) (s : State R)
+theorem instance_failure_clean (n : String) (r : R) (flt : Option Addr) (s : State R) (cancel : Option (Addr × Bool))
     (hids : ∀ w ∈ s.wls, w.id < s.next) :
-    (run (deployOne n r true) flt s).1 = .fail →
-      (run (deployOne n r true) flt s).2.st.wls = s.wls ∧
-      (∀ c ∈ (run (deployOne n r true) flt s).2.st.cts, c ∈ s.cts) ∧
-      (run (deployOne n r true) flt s).2.st.usage = s.usage := by
+    (run (deployOne n r true) flt s cancel).1 = .fail →
+      (run (deployOne n r true) flt s cancel).2.st.wls = s.wls ∧
+      (∀ c ∈ (run (deployOne n r true) flt s cancel).2.st.cts, c ∈ s.cts) ∧
+      (run (deployOne n r true) flt s cancel).2.st.usage = s.usage := by
   intro h
-  have := deployOne_spec n r true flt { st := s }
+  have := deployOne_spec n r true flt { st := s, cancel := cancel }
   unfold wp at this
   unfold run at h ⊢
   rcases this with ⟨ho, _⟩ | ⟨_, hp⟩
@@ -102,8 +102,8 @@ theorem instance_failure_clean (n : String) (r : R) (flt : Option Addr) (s : Sta
 rollbacks, whatever the fault) every node's usage is again the sum of the recorded workloads —
 the failed instances' allocations have been given back (C10's invariant for create). -/
 theorem failures_leave_no_usage (a : CreateArgs R) (hnd : (a.plan.map (·.1)).Nodup) (flt : Option Addr)
-    (s : State R) (h : Inv s) : ∀ n, (after (.create a) flt s).usage n = load (after (.create a) flt s) n :=
-  (create_inv a hnd flt { st := s } ⟨h, rfl, rfl⟩).2.2
+    (s : State R) (cancel : Option (Addr × Bool)) (h : Inv s) : ∀ n, (after (.create a) flt s cancel).usage n = load (after (.create a) flt s cancel) n :=
+  (create_inv a hnd flt { st := s, cancel := cancel } ⟨h, rfl, rfl⟩).2.2
 
 /-- non-vacuity: on the witness state a deploy hit at the engine's start call fails, an unhit one
 succeeds with the fresh id 2. -/
